@@ -20,6 +20,7 @@ import (
 	"verif/harness/c10"
 	"verif/harness/c11"
 	"verif/harness/c12"
+	"verif/harness/c12e2e"
 	"verif/harness/c13"
 	"verif/harness/c14"
 	"verif/harness/c15"
@@ -45,6 +46,7 @@ var areas = map[string]common.Area{
 	"c10":     c10.Area{},
 	"c11":     c11.Area{},
 	"c12":     c12.Area{},
+	"c12e2e":  c12e2e.Area{},
 	"c13":     c13.Area{},
 	"c14":     c14.Area{},
 	"c15":     c15.Area{},
